@@ -187,6 +187,12 @@ class DataChunk(DSFChunk):
 class _DSFID3(ID3):
     """A DSF file with ID3v2 tags"""
 
+    def load(self, *args, **kwargs):
+        # There is no ID3v1 tag in here: the end of the file is not the
+        # end of the tag's container, don't go looking for "TAG" there.
+        kwargs.setdefault("load_v1", False)
+        super(_DSFID3, self).load(*args, **kwargs)
+
     @convert_error(IOError, error)
     def _pre_load_header(self, fileobj):
         fileobj.seek(0)
